@@ -35,13 +35,27 @@ impl SegmentFileWriter {
             header.set_payload_length(payload_length);
             header.set_record_id(record_id);
         }
+        #[cfg(feature = "verif-hooks")]
+        let vt = crate::verif::before(crate::verif::IoOp::Append {
+            fd: std::os::fd::AsRawFd::as_raw_fd(&self.file),
+            data: &header,
+        })?;
         self.file.write_all(&header)?;
+        #[cfg(feature = "verif-hooks")]
+        crate::verif::after(vt, true);
         self.file_size += HEADER_SIZE as u64;
         Ok(())
     }
 
     pub fn write_payload(&mut self, payload: &[u8]) -> std::io::Result<()> {
+        #[cfg(feature = "verif-hooks")]
+        let vt = crate::verif::before(crate::verif::IoOp::Append {
+            fd: std::os::fd::AsRawFd::as_raw_fd(&self.file),
+            data: payload,
+        })?;
         self.file.write_all(payload)?;
+        #[cfg(feature = "verif-hooks")]
+        crate::verif::after(vt, true);
         // Calculate the next aligned position.
         let record_alignment = RECORD_ALIGNMENT as u64;
         let current_end = self.file_size + payload.len() as u64;
@@ -52,14 +66,27 @@ impl SegmentFileWriter {
         };
         // The reason we are setting the length here is because otherwise if we just seek and not
         // set the length, then the underlying file may not be extended.
+        #[cfg(feature = "verif-hooks")]
+        let vt = crate::verif::before(crate::verif::IoOp::SetLen {
+            fd: std::os::fd::AsRawFd::as_raw_fd(&self.file),
+            len: next_pos,
+        })?;
         self.file.set_len(next_pos)?;
+        #[cfg(feature = "verif-hooks")]
+        crate::verif::after(vt, true);
         self.file.seek(SeekFrom::Start(next_pos))?;
         self.file_size = next_pos;
         Ok(())
     }
 
     pub fn fsync(&mut self) -> std::io::Result<()> {
+        #[cfg(feature = "verif-hooks")]
+        let vt = crate::verif::before(crate::verif::IoOp::Fsync {
+            fd: std::os::fd::AsRawFd::as_raw_fd(&self.file),
+        })?;
         self.file.sync_data()?;
+        #[cfg(feature = "verif-hooks")]
+        crate::verif::after(vt, true);
         Ok(())
     }
 
